@@ -269,6 +269,7 @@ pub fn inputs_c06(r: &mut Rng, n: usize, tier: &str, out: &mut dyn Write) {
             writeln!(out, "lsiter {} {} nth {}", which, k, (k * 7 + 3) % 45).unwrap();
         }
         writeln!(out, "lsiter {} 0 rev 0", which).unwrap();
+        writeln!(out, "lsiter {} 0 index 0", which).unwrap();
     }
     // systematic part: every second in +/- 40 s of each entry, both directions, plus ns edges
     let mut emitted = 0usize;
@@ -1372,6 +1373,22 @@ pub fn exec(op: &str, a: &[&str]) -> Option<String> {
                 format!("ok {} {}", if got.is_empty() { "-".to_string() } else { got.join(",") }, full.join(","))
             }
             let (k, j): (usize, usize) = (a[1].parse().unwrap(), a[3].parse().unwrap());
+            if a[2] == "index" {
+                // the table read by position (Index<usize>), next to the forward listing
+                let (got, full): (Vec<String>, Vec<String>) = match a[0] {
+                    "file" => {
+                        let p = file_provider();
+                        let full: Vec<String> = p.clone().map(show).collect();
+                        ((0..full.len()).map(|i| show(p[i])).collect(), full)
+                    }
+                    _ => {
+                        let p = LatestLeapSeconds::default();
+                        let full: Vec<String> = p.clone().map(show).collect();
+                        ((0..full.len()).map(|i| show(p[i])).collect(), full)
+                    }
+                };
+                return Some(format!("ok {} {}", got.join(","), full.join(",")));
+            }
             Some(match a[0] {
                 "file" => run(file_provider(), k, a[2], j),
                 _ => run(LatestLeapSeconds::default(), k, a[2], j),
